@@ -69,13 +69,13 @@ var reach = []struct {
 	{"share/dkg/pedersen/pdkg.go", []string{"handlePeerMsg", "handleRequest", "pdkg.Loop", "decodePubKey", "reportErr"}},
 	{"share/dkg/pedersen/pdkg_pipes.go", []string{"exchangePub", "genDistKeyGenerator", "getAndProcessDeals", "getAndProcessResponses", "genGroup"}},
 	{"share/dkg/pedersen/dkg.go", []string{"initDistKeyGenerator", "NewDistKeyGenerator", "DistKeyGenerator.ProcessDeal", "DistKeyGenerator.ProcessResponse", "DistKeyGenerator.Certified", "DistKeyGenerator.QUAL", "DistKeyGenerator.qualIter", "DistKeyGenerator.DistKeyShare", "DistKeyShare.Commitments", "findPub"}},
-	{"share/vss/pedersen/vss.go", []string{"NewDealer", "NewVerifier", "Verifier.ProcessEncryptedDeal", "Verifier.decryptDeal", "Verifier.ProcessResponse", "Verifier.Deal", "Verifier.ProcessJustification", "Verifier.UnsafeSetResponseDKG", "Dealer.ProcessResponse", "Dealer.PrivatePoly", "newAggregator", "aggregator.VerifyDeal", "aggregator.verifyResponse", "aggregator.verifyJustification", "aggregator.addResponse", "aggregator.EnoughApprovals", "aggregator.DealCertified", "validT", "findPub", "sessionID", "Response.Hash", "Justification.Hash", "Deal.MarshalBinary", "Deal.UnmarshalBinary", "Signature.ToBigInt"}},
+	{"share/vss/pedersen/vss.go", []string{"NewDealer", "NewVerifier", "Verifier.ProcessEncryptedDeal", "Verifier.decryptDeal", "Verifier.ProcessResponse", "Verifier.DealCertified", "Verifier.Deal", "Verifier.ProcessJustification", "Verifier.UnsafeSetResponseDKG", "Dealer.ProcessResponse", "Dealer.PrivatePoly", "newAggregator", "aggregator.VerifyDeal", "aggregator.verifyResponse", "aggregator.verifyJustification", "aggregator.addResponse", "aggregator.EnoughApprovals", "aggregator.DealCertified", "validT", "findPub", "sessionID", "Response.Hash", "Justification.Hash", "Deal.MarshalBinary", "Deal.UnmarshalBinary", "Signature.ToBigInt"}},
 	{"share/vss/pedersen/dh.go", []string{"dhExchange", "newAEAD", "context"}},
 	{"sign/tbls/tbls.go", []string{"SigShare.Index", "SigShare.Value", "sliceUniqMap", "Recover"}},
 	{"share/poly.go", []string{"NewPriPoly", "PriPoly.Threshold", "PriPoly.Eval", "PriPoly.Commit", "PriPoly.Coefficients", "NewPubPoly", "PubPoly.Info", "PubPoly.Threshold", "PubPoly.Commit", "PubPoly.Eval", "PubPoly.Add", "RecoverCommit"}},
 	{"share/dkg/pedersen/pdkg.go", []string{"pdkg.Grouping", "pdkg.GetGroupPublicPoly", "pdkg.GetShareSecurity", "pdkg.GetGroupIDs", "pdkg.GetGroupNumber", "pdkg.GroupDissolve"}},
 	{"share/dkg/pedersen/pdkg_pipes.go", []string{"genPub", "sendToMembers", "askMembers", "genDealsAndSend"}},
-	{"dosnode/dos_stages.go", []string{"choseSubmitter", "genUserRandom", "genSysRandom", "dataParse", "genQueryResult", "dispatchSign", "recoverSign", "reportQueryResult", "padOrTrim"}},
+	{"dosnode/dos_stages.go", []string{"choseSubmitter", "genUserRandom", "genSysRandom", "dataParse", "genQueryResult", "dispatchSign", "recoverSign", "drainSigns", "reportQueryResult", "padOrTrim"}},
 	{"dosnode/dos_query_handler.go", []string{"DosNode.queryLoop", "DosNode.handleQuery"}},
 	{"dosnode/dos_chain_handler.go", []string{"DosNode.onchainLoop", "DosNode.handleGrouping", "DosNode.groupInfo", "DosNode.handleCR", "byte32", "DosNode.isMember",
 		"DosNode.handleGroupFormation", "DosNode.handleRandom", "DosNode.handleBootstrap", "DosNode.handleGroupDissolve"}},
